@@ -8,15 +8,20 @@ pub struct ScriptRng {
     pub pos: usize,
     pub state: u64,
     pub count: u64,
+    /// panic when more than this many words are drawn (0 = no limit): turns a non-terminating rejection loop into a caught panic
+    pub limit: u64,
 }
 
 impl ScriptRng {
     pub fn new(words: Vec<u64>, seed: u64) -> Self {
-        ScriptRng { words, pos: 0, state: seed, count: 0 }
+        ScriptRng { words, pos: 0, state: seed, count: 0, limit: 0 }
     }
     #[inline]
     pub fn word(&mut self) -> u64 {
         self.count += 1;
+        if self.limit != 0 && self.count > self.limit {
+            panic!("word limit exceeded");
+        }
         if self.pos < self.words.len() {
             let w = self.words[self.pos];
             self.pos += 1;
